@@ -11,12 +11,28 @@ Definition list_eqb {A} (e : A -> A -> bool) : list A -> list A -> bool :=
     | x :: a', y :: b' => e x y && go a' b'
     | _, _ => false
     end.
+(* a float is carried by its text; [tab] maps a float text of the input to the canonical text of
+   the float it denotes (computed by the driver with strconv: assumed), the implementation's
+   floats arrive as canonical texts *)
+Fixpoint lookup_text (x : bytes) (tab : list (bytes * bytes)) : bytes :=
+  match tab with [] => x | (k, v) :: r => if SerModel.bytes_eqb x k then v else lookup_text x r end.
+Fixpoint value_eqb_tab (tab : list (bytes * bytes)) (a b : value) {struct a} : bool :=
+  match a, b with
+  | VNull, VNull => true
+  | VBool x, VBool y => Bool.eqb x y
+  | VInt x, VInt y => (x =? y)%Z
+  | VFloat x, VFloat y => SerModel.bytes_eqb (lookup_text x tab) y
+  | VStr x, VStr y => SerModel.bytes_eqb x y
+  | VList x, VList y => list_eqb (value_eqb_tab tab) x y
+  | VMap x, VMap y => list_eqb (fun p q => SerModel.bytes_eqb (fst p) (fst q) && value_eqb_tab tab (snd p) (snd q)) x y
+  | _, _ => false
+  end.
 Fixpoint value_eqb (a b : value) {struct a} : bool :=
   match a, b with
   | VNull, VNull => true
   | VBool x, VBool y => Bool.eqb x y
   | VInt x, VInt y => (x =? y)%Z
-  | VFloat x, VFloat y => x =? y
+  | VFloat x, VFloat y => SerModel.bytes_eqb x y
   | VStr x, VStr y => SerModel.bytes_eqb x y
   | VList x, VList y => list_eqb value_eqb x y
   | VMap x, VMap y => list_eqb (fun p q => SerModel.bytes_eqb (fst p) (fst q) && value_eqb (snd p) (snd q)) x y
@@ -56,27 +72,15 @@ Definition check_ser (c : scase) : list nat :=
 
 (* unserialize case on arbitrary bytes.
    1 model <> implementation
-   5 accepted only because surrounding white space is trimmed
-   6 accepted only through the legacy fallback for s: (content between first and last quote)
    9 outside the model *)
-Record ucase := { u_in : bytes; u_obs : value }.
+Record ucase := { u_in : bytes; u_ftab : list (bytes * bytes); u_obs : value }.
 Definition check_unser (c : ucase) : list nat :=
   match unserialize (u_in c) with
   | POutOfFuel => [1%nat]
   | PUnmodelled => [9%nat]
-  | r =>
-    (match pres_value r with
-     | Some a => if value_eqb a (u_obs c) then [] else [1%nat]
-     | None => [1%nat] end) ++
-    (match r with
-     | POk v =>
-       match parse_strict (u_in c) with
-       | POk _ => []
-       | _ => match parse_strict (trim_space (u_in c)) with
-              | POk _ => [5%nat]
-              | _ => [6%nat] end
-       end
-     | _ => [] end)
+  | r => match pres_value r with
+         | Some a => if value_eqb_tab (u_ftab c) a (u_obs c) then [] else [1%nat]
+         | None => [1%nat] end
   end.
 
 (* observation codes for the exhaustive short-input run *)
@@ -86,7 +90,7 @@ Fixpoint value_code (v : value) : bytes :=
   | VBool false => [1]
   | VBool true => [2]
   | VInt z => [3; if (z <? 0)%Z then 1 else 0] ++ WireModel.le_bytes 8 (Z.abs_N z)
-  | VFloat b => [4] ++ WireModel.le_bytes 8 b
+  | VFloat t => [4] ++ WireModel.le_bytes 2 (N.of_nat (length t)) ++ t
   | VStr s => [5] ++ WireModel.le_bytes 2 (N.of_nat (length s)) ++ s
   | VList l => [6] ++ WireModel.le_bytes 2 (N.of_nat (length l)) ++ flat_map value_code l
   | VMap l => [7] ++ WireModel.le_bytes 2 (N.of_nat (length l)) ++
